@@ -5,7 +5,7 @@ ID = "C03"
 N_QUICK, N_THOROUGH = 5000, 60000
 STRICT_MODEL = True
 RULE = ("one term (or one regex) x a list of texts per case; terms = operator prefix x body x '$' suffix over "
-        "{a b z A B Z k s 1 ' ^ $ ! \\ blank tab . * ( | [ + ? - é 中 😀}; texts derived from the body (equal, case-flipped, "
+        "{a b z A B Z k s 1 ' ^ $ ! \\ blank tab . * ( | [ + ? - é Ж 中 😀} (Ж = an upper-case letter that is not ASCII: it must not switch smart case on; its lower-case partner is never generated); texts derived from the body (equal, case-flipped, "
         "embedded, interleaved, truncated, reversed) plus random ones; x exact-mode x case {smart,respect,ignore} x "
         "algo {skim_v1,skim_v2,clangd}; regex mode: generated valid and invalid expressions; thorough tier adds the exhaustive "
         "enumeration of all terms of length <= 4 over {a B ' ^ $ ! \\ blank} x all texts of length <= 3 over {a A b B blank 中} "
@@ -13,12 +13,12 @@ RULE = ("one term (or one regex) x a list of texts per case; terms = operator pr
 ASSUMPTIONS = [
     "fuzzy-matcher 0.3.7: verdict of fuzzy_indices = its cheap_matches pre-filter (greedy in-order scan, ASCII folding by the case rule)",
     "regex 1.6: find() of [(?i)][^]escape(lit)[$] = infix/prefix/suffix/equality of the literal; (?i) = ASCII folding on the generated alphabet "
-    "(cased non-ASCII letters, U+212A and U+017F are not generated: the property claims case-insensitivity for ASCII only)",
+    "(of the cased non-ASCII letters only é and Ж are generated, never their partners É / ж; U+212A and U+017F are not generated: the property claims case-insensitivity for ASCII only)",
     "regex mode: the regex crate is an oracle (harness reports compile/find for `q` and `(?i)q`); only skim's wrapper is modelled",
 ]
 
 LOW, UP = "abzks", "ABZ"
-OTHER = ["1", "é", "中", "😀", ".", "*", "(", "|", "[", "+", "?", "-", "\\", "'", "^", "$", "!", " ", "\t", "#", ")"]
+OTHER = ["1", "Ж", "é", "中", "😀", ".", "*", "(", "|", "[", "+", "?", "-", "\\", "'", "^", "$", "!", " ", "\t", "#", ")"]
 OPS_PRE = ["", "", "", "", "'", "'", "!", "!", "^", "^", "'!", "!^", "'^", "'!^", "!'", "^!", "''", "!!", "^^", "'^!"]
 OPS_POST = ["", "", "", "$", "$", "$$", "\\$"]
 CASES, ALGOS = "sri", "12c"
@@ -38,7 +38,9 @@ def rbody(rng):
     out = []
     for _ in range(n):
         r = rng.random()
-        if style < 0.45:            # lower-case only (smart case => insensitive)
+        if style < 0.12:            # lower-case ASCII plus a non-ASCII upper-case letter (smart case must stay insensitive)
+            out.append(rng.choice(LOW) if r < 0.7 else "Ж")
+        elif style < 0.45:            # lower-case only (smart case => insensitive)
             out.append(rng.choice(LOW) if r < 0.85 else rng.choice(OTHER))
         elif style < 0.8:           # mixed case
             out.append(rng.choice(LOW + UP) if r < 0.85 else rng.choice(OTHER))
